@@ -355,8 +355,8 @@ fn cmd_check(a: Args) -> i32
 fn cmd_replay(path: &str) -> i32
 {
     let txt = match std::fs::read_to_string(path) { Ok(t) => t, Err(e) => { eprintln!("cannot read {path}: {e}"); return 2; } };
+    if let Ok(v) = serde_json::from_str::<serde_json::Value>(&txt) { if v.get("tprog").is_some() { return threads::replay(&Program::default(), "", path); } }
     let rf: ReplayFile = match serde_json::from_str(&txt) { Ok(r) => r, Err(e) => { eprintln!("bad replay file: {e}"); return 2; } };
-    if let Some(s) = &rf.schedule { return threads::replay(&rf.program, s, path); }
     let (trace, r) = run_and_check(&Arc::new(rf.program.clone()));
     if std::env::var("VERBOSE").is_ok() { for (i, e) in trace.iter().enumerate() { println!("{i:4} {e:?}"); } }
     for v in &r.verdicts
